@@ -213,3 +213,13 @@ reg('C03', True, 'other',
     'NOT decided: convergence of the truncated image sum / that 3 shells cover the cutoff. Pair-energy asymmetry for unlike '
     'particles is the known finding under C13.',
     'loop-nest/adaptor-chain recognition + lifted accumulation weights + normal-form identity of the returned expression')
+
+reg('C02', True, 'other',
+    'CLAUSES (exact real-formula identities by symbolic execution / lifting + polynomial normal form). The Some payload of the hard '
+    'score == area(shape)*total_shapes/area(cell); total_shapes == sum of site multiplicities; area(cell) == |A x B| of the lattice '
+    'vectors of to_cartesian; polygon: per-edge term == 1/2*sin(2pi/items.len())*|start|*|end| summed over every item, and '
+    'from_radial places vertex k at (r_k sin kd, r_k cos kd), d=2pi/n with edges (k, k+1 cyclic); discs: sum of pi r^2 minus, for each '
+    'unordered pair once (tuple_combinations), the two-segment lens formula guarded by d < r1+r2.',
+    'NOT decided: the disc-union area is only second-order inclusion-exclusion (wrong when three discs share a point — a condition on '
+    'run-time trimer parameters); score <= 1 (needs the undecided shell-sufficiency clause of C01); floating-point accuracy.',
+    'symbolic execution/lifting of loop-free leaves + polynomial normal-form identities + adaptor-chain recognition')
